@@ -70,6 +70,7 @@ def handle (f : List String) : String :=
       let all := perLS ++ hv ++ hg ++ js
       if all.isEmpty then "." else " ".intercalate all
     | _, _, _ => "BAD-CASE"
+  | "overlap" :: _ => "-"
   | _ => "BAD-CASE"
 
 end MtailVerif.Driver.C22
